@@ -272,6 +272,24 @@ impl<'tcx> Cx<'tcx> {
             out.push_str(&t);
             out.push('}');
         }
+        out.push_str("],\"promoted\":[");
+        // promoted constants (`&Enum::Variant`, `&[..]` tables): the rvalues each one is built from
+        let proms = tcx.promoted_mir(def_id);
+        for (pi, pb) in proms.iter().enumerate() {
+            if pi > 0 { out.push(','); }
+            out.push('[');
+            let mut firstp = true;
+            for data in pb.basic_blocks.iter() {
+                for st in &data.statements {
+                    if let StatementKind::Assign(b) = &st.kind {
+                        if !firstp { out.push(','); }
+                        firstp = false;
+                        out.push_str(&self.rvalue(pb, &b.1));
+                    }
+                }
+            }
+            out.push(']');
+        }
         out.push_str("]}\n");
     }
 }
